@@ -26,6 +26,7 @@ FLEX == 64
 Menu ==
     {[m |-> "add", x |-> x] : x \in {0, 7}}
     \cup {[m |-> "concat", x |-> x] : x \in {0, 3}}
+    \cup {[m |-> "join", x |-> x] : x \in {43, 44, 45}}            \* two Strings: 4 + 8 + x + 8 reaches exactly 64 for x = 44, then more follows
     \cup {[m |-> "sum", x |-> x] : x \in {0, 5}}
     \cup {[m |-> "blob", x |-> x] : x \in {0, 51, 52, 53, 300}}
     \cup {[m |-> "check", x |-> x] : x \in {0, 1}}                    \* 0 -> Ok, 1 -> Err
@@ -39,6 +40,7 @@ ArgBytes(c) ==
     CASE c.m = "add" -> 4 + 8
       [] c.m = "blob" -> 4 + 8 + c.x
       [] c.m = "concat" -> 4 + 16 + 8 + c.x      \* &str travels as pointer + length, the String serialized
+      [] c.m = "join" -> 4 + 8 + c.x + 8 + 2
       [] OTHER -> 4 + 8
 BufKind(c) == IF c.m = "add" THEN "array" ELSE IF ArgBytes(c) <= FLEX THEN "inline" ELSE "spill"
 
@@ -61,7 +63,7 @@ Init == /\ calls = <<>> /\ log = <<>> /\ rets = <<>> /\ held = <<>> /\ phase = "
 Ev(k, a) == [k |-> k, a |-> a]
 \* plain data calls: the implementation observes the argument, the caller receives the result
 Plain(c) ==
-    /\ c.m \in {"add", "concat", "sum", "blob", "check"}
+    /\ c.m \in {"add", "concat", "join", "sum", "blob", "check"}
     /\ log' = Append(log, Ev(c.m, c.x))
     /\ rets' = Append(rets, Ev(IF c.m = "check" /\ c.x = 1 THEN "err" ELSE "ok", c.x))
     /\ UNCHANGED <<objs, held>>
